@@ -299,7 +299,7 @@ contract('ResourceManager.reserve_resources_with_callback', props=['C10'],
 # What a waiter's callback may do to the manager while it runs (A4: public API only): reserve (usage grows),
 # release / add capacity (both set the check flag, see their contracts), register further waiters (at the back).
 RM_INVS = {n: t for n, t, s in SPECS.invariants['ResourceManager']}
-rely('ResourceManager', protect=['self._env', 'self._name'],
+rely('ResourceManager', protect=['self._env', 'self._env._now', 'self._name'],
      before=RM_INVS,
      after=dict(RM_INVS,
                 waiters_only_appended=
